@@ -459,6 +459,7 @@ Qed.
      statement also needs 0 <= g.  The per-object core (parse_indirect accepts at off  ->  rd_read_at returns the same
      value and extent, no warning) was designed with these hypotheses but not finished.
    rd_reads_writer_output : forall d, wf_doc d -> rd_view (write_doc d) reads d back.
-     Not proved: it is the composition of write_read_strict_lemma (Obj/C01FileProofs.v) with rd_reader_agrees_strict.
+     Not proved as a whole.  The bridge (the parser model reads what the writer model prints) and readObjectAtOffset on an
+     emitted object ARE proved in File/C03ProofsRdW.v, which also lists the steps that are still missing.
    What IS proved about the reader: the stream-extent and header lemmas above, for all inputs; the agreement of the whole
    view is tested (harness/c03read.py: model = qpdf = ISO ground truth on about 1200 aimed files per run). *)
